@@ -51,6 +51,15 @@ def _reach(proj, world, prestate):
     others = [(o, a[1]) for o, a in world.sources.items() if o != s and o not in world.absent]
     if prestate == "first":
         return [(s, alpha[1])] + others
+    if prestate == "do-removed":
+        # world takeover: p.x was built by its own p.x.do, q.x by default.x.do; then p.x.do is removed, so the rule that
+        # already built q.x takes over p.x -- the rebuild that is going to be interrupted is caused by nothing but that
+        obs = proj.op(["ifchange", ["top"]])
+        if obs["rc"] != 0 or oracles.check_content(proj, obs):
+            raise SubjectWrong({"kind": "pre-state-build-fails", "world": world.name, "prestate": prestate},
+                               {"rc": obs["rc"], "err": obs["err"][-600:]})
+        proj.op(["dorm", "p.x.do"])
+        return [(s, alpha[1])] + others
     if prestate in ("incr", "incr2", "rmtarget", "override-rm"):
         obs = proj.op(["ifchange", ["top"]])
         if obs["rc"] != 0:
@@ -266,13 +275,14 @@ def crash_job(args):
 
 
 PRESTATES = {"chain": ("first", "incr", "rmtarget", "override-rm"), "csum-mid": ("first", "incr", "incr2", "rmtarget", "override-rm"),
-             "default": ("first", "incr"), "chain-append": ("first", "incr"), "dynamic": ("first", "incr")}
+             "default": ("first", "incr"), "takeover": ("first", "do-removed"), "chain-append": ("first", "incr"), "dynamic": ("first", "incr")}
 
 
 def plan(tier):
     """(world, pre-state, scope) combinations; scope "script" = the script-boundary kill points (whole tree)"""
     if tier == "quick":
         c = [(w, ps, sc) for w in ("chain", "csum-mid", "chain-append") for ps in PRESTATES[w] for sc in ("tree", "script")]
+        c += [("takeover", "do-removed", sc) for sc in ("tree", "script")]
         c += [("chain", ps, "proc") for ps in ("first", "incr")]
         return c, True
     return [(w, ps, sc) for w in PRESTATES for ps in PRESTATES[w] for sc in ("proc", "tree", "script")], False
